@@ -258,13 +258,21 @@ pub fn has_contradictory_pair(m: &Model, assumptions: &[Pred]) -> bool {
     false
 }
 
+/// the list contains a predicate together with its exact negation ("x, not-x")
+pub fn has_negation_pair(assumptions: &[Pred]) -> bool {
+    assumptions.iter().any(|a| {
+        let n = a.negated();
+        assumptions.iter().any(|b| b.var == n.var && b.kind == n.kind && b.val == n.val)
+    })
+}
+
 impl Property for AssumpProp {
     type Case = AssumpCase;
     fn id(&self) -> &'static str {
         "C05"
     }
     fn rule(&self) -> String {
-        "generated model x configuration x a sequence of 1-4 solves on one solver, each either a plain satisfy or satisfy_under_assumptions with 0-5 assumptions of all four predicate kinds (values from lb-1..ub+1: already true/false at the root, duplicates, implied, contradictory pairs, any order) with or without core extraction. Oracle: exhaustive S and S_A; a solution must lie in S_A; UnsatisfiableUnderAssumptions requires S_A empty, every core predicate implied by the assumptions over the declared domain and no solution of the model satisfying the whole core; the 'conflicting assumptions' report is accepted only when a pair without common value exists; later solves answer for the original model. Non-trivial: S non-empty, S_A empty, >=2 assumptions and the core is a strict subset of (or differs from) the assumptions; distinct by hash of (model, steps).".into()
+        "generated model x configuration x a sequence of 1-4 solves on one solver, each either a plain satisfy or satisfy_under_assumptions with 0-5 assumptions of all four predicate kinds (values from lb-1..ub+1: already true/false at the root, duplicates, implied, contradictory pairs, any order) with or without core extraction. Oracle: exhaustive S and S_A; a solution must lie in S_A; UnsatisfiableUnderAssumptions requires S_A empty, every core predicate implied by the assumptions over the declared domain and no solution of the model satisfying the whole core; the 'conflicting assumptions' report is accepted only when a pair without common value exists, and it is required (instead of a core) when the list contains a predicate together with its exact negation; later solves answer for the original model. Non-trivial: S non-empty, S_A empty, >=2 assumptions and the core is a strict subset of (or differs from) the assumptions; distinct by hash of (model, steps).".into()
     }
     fn strategy(&self, tier: Tier) -> BoxedStrategy<AssumpCase> {
         let mut p = GenParams::standard();
@@ -380,12 +388,20 @@ impl Property for AssumpProp {
                                 CoreRes::Foreign(p) => return Err(Failure::new("wrong:core-foreign-predicate", format!("step {si}: core contains {p}"))),
                                 CoreRes::ConflictingAssumptions(msg) => {
                                     out.classes.push("core:conflicting_report".into());
+                                    if has_negation_pair(assumptions) {
+                                        out.classes.push("core:negation_pair_reported".into());
+                                    }
                                     if !has_contradictory_pair(m, assumptions) {
                                         return Err(Failure::new("wrong:conflicting-assumptions-report", format!("step {si}: '{msg}' but no two assumptions of {:?} exclude each other", assumptions)));
                                     }
                                 }
                                 CoreRes::Core(core) => {
                                     out.classes.push("core:checked".into());
+                                    // the other direction of the documented report: x together with not-x
+                                    // is reported as such, not answered with a core
+                                    if has_negation_pair(assumptions) {
+                                        return Err(Failure::new("wrong:contradictory-pair-not-reported", format!("step {si}: the assumptions {:?} contain a predicate and its negation, but a core {:?} was returned instead of the conflicting-assumptions report", assumptions, core)));
+                                    }
                                     for p in &core {
                                         if !implied_by(m, assumptions, p) {
                                             // weaker: the values which the assumptions allow but the core
